@@ -2,7 +2,7 @@ SPEC = dict(
     id="C34",
     bin="c34",
     cases_quick=160,
-    cases_thorough=4000,
+    cases_thorough=2400,
     shard=8,
     level="proof",
     technique="Coq refinement proof (sorted array + count, modelled access by access with an explicit panic channel, against std++ gmap) + differential correspondence on whole op histories of the real fixed_map! instances (own instantiations at capacity 1..5/32/64/512 and the programs' RoleMap/Members/Tokens/DisabledMap/GlvMarkets/PriceMap/TokenMap/TokenBalances) evaluated inside Coq + ordinary-map oracle on the Rust outputs",
